@@ -4,7 +4,7 @@ N_THOROUGH = 12000
 MODEL_SHOW = "run"
 DISAGREE_IS_VIOLATION = True   # observables are exactly what the property fixes
 HARNESS_TIMEOUT = 600
-RULE = ("placement: every cancel placement (none / armed / expiry queued / inside own callback / after the first callback / "
+RULE = ("capacity: the queue channel (capacity 999) at and beyond capacity while the owner does not read it for 1.3-1.4 s (quick: 999 one-shots + a one-shot + a panicking repeating timer; 1100 mixed one-shot/repeating timers created in a loop (OCreateN); thorough adds 998/999/1000/1001/1500 one-shot and repeating timers with stalls of 1.6-3.5 s and cancels during the stall), then the owner drains everything and three more expiry+Do rounds: every timer must be delivered and run, one-shots once, repeating ones again and again; placement: every cancel placement (none / armed / expiry queued / inside own callback / after the first callback / "
         "second expiry queued / from another timer's callback with the target queued or re-armed / twice / unknown id / "
         "callback creates a timer / Stop) x {one-shot, repeating} x {callback panics or not} x {with, without a repeating "
         "bystander} x durations {0,1,3} ms, each followed by two more expiry+Do rounds and a 6 ms grace period; "
@@ -18,8 +18,9 @@ TRUSTED_BASE = [
     "ASSUMED about the Go runtime (the only environment assumption, enabling condition of step SFireCheck): a function given to "
     "time.AfterFunc(d, f) is not started before d has elapsed on the monotonic clock, and is started at most once per AfterFunc call",
     "modelled not verified: Obj.Canceled / Mgr.running are plain bools shared between the owner and the AfterFunc goroutines (modelled "
-    "sequentially consistent; the harness is built without the race detector), sync.Map as a map, chan *Obj as a bag of capacity 999 "
-    "(the owner may Do received expiries in any order; FIFO is the special case SDoNext)",
+    "sequentially consistent; the harness is built without the race detector), sync.Map as a map, chan *Obj as a bag: the channel holds at most 999 "
+    "of the sent-but-not-done expiries, the owner's receive (SRecv) frees a slot, a sender on a full channel blocks; the owner may Do received "
+    "expiries in any order (FIFO is the special case SDoNext). Which senders block on a full channel is not predicted (and not observed): only that all deliver",
     "Go harness harness/c14 (owner goroutine per case, queue length polling, arming time stamps taken before the arming call, "
     "goroutine identity parsed from runtime.Stack), bin/check.py JSON->Coq term printer",
     "model steps between the two halves of the AfterFunc function (SFireCheck / SFireSend) are covered by the theorems but cannot be "
